@@ -306,3 +306,19 @@ def _ancestors(n: ast.AST):
     from ..loader import ancestors
 
     return ancestors(n)
+
+
+def thorough(an: Analysis, repo: str) -> dict:
+    """E6: pyright suppression audit - with the `# pyright: ignore` comments of retries.py stripped in a
+    scratch copy there must be no `"int" is not callable` diagnostic (that suppressed diagnostic was the C14.5 defect)."""
+    from ..engine import Finding
+    from ..pyright_bridge import suppression_audit
+
+    res = suppression_audit(repo, "src/haiway/helpers/retries.py", r"is not callable")
+    out: dict = {"pyright_suppression_audit": res}
+    if res.get("matching"):
+        out["findings"] = [
+            Finding("C14", "C14.5p", "haiway.helpers.retries", f"pyright: {m['message']}", "src/haiway/helpers/retries.py", m["line"], "a `# pyright: ignore` comment hides a real defect: a numeric delay reaches the arm that calls it")
+            for m in res["matching"]
+        ]
+    return out
